@@ -38,7 +38,12 @@ def simulate_docs(ctx, num, maxtok=40, maxdepth=6, maxlist=3, jvms=None, depth=3
     return docs
 
 
-STR_ATOMS = ["a", "b", "Z", "0", "9", " ", ".", ",", "-", "_", "/", ":", "&", "<", ">", '"', "'", "é", "€", "漢", "😀", "%", "]", "[", "=", "+"]
+STR_ATOMS = ["a", "b", "Z", "0", "9", " ", ".", ",", "-", "_", "/", ":", "&", "<", ">", '"', "'", "é", "€", "漢", "😀", "%", "]", "[", "=", "+",
+             "{", "}"]
+# interior line breaks / tabs / runs of blanks: legal character data when READING a document (C03); not part of
+# the "printable" strings the writing properties (C01, C11) quantify over
+MULTILINE_ATOMS = ["\r\n", "\n", "\r", "\t", "  "]
+MULTILINE = [False]
 # fragments that make the VALUE itself look like it holds an entity (the wire must escape the '&')
 ENTITY_LIKE = ["&lt;", "&gt;", "&amp;", "&quot;", "&apos;", "&nbsp;", "&#65;", "&x;", "&amp;lt;"]
 ENT = {"&": "&amp;", "<": "&lt;", ">": "&gt;", '"': "&quot;", "'": "&apos;"}
@@ -52,7 +57,8 @@ def str_value(rnd, maxlen):
     else:
         k = 1.0
         n = rnd.randrange(1, min(n, 80) + 1)
-    s = "".join(rnd.choice(STR_ATOMS) for _ in range(n)).strip()
+    atoms = STR_ATOMS + (MULTILINE_ATOMS * 2 if MULTILINE[0] else [])
+    s = "".join(rnd.choice(atoms) for _ in range(n))[:n].strip()
     if rnd.random() < 0.25:
         frag = rnd.choice(ENTITY_LIKE)
         if len(frag) <= n:
@@ -98,7 +104,11 @@ def text_for(t, rnd, rich=True, wire=False):
         return rnd.choice(["", "", "-", "+"]) + str(v) if rich else str(v)
     if k == "dec":
         ip = str(rnd.randrange(10 ** rnd.randrange(1, 9)))
+        if rich and rnd.random() < 0.08:
+            ip = str(rnd.randrange(10 ** 26, 10 ** 34))        # more significant digits than decimal's default context keeps
         fp = "".join(rnd.choice("0123456789") for _ in range(rnd.randrange(0, 7)))
+        if rich and rnd.random() < 0.1:
+            return rnd.choice(["0.00", "-0.000", "0", "0.0", "+0.0000", "0,00", "000.10", "-0"])     # zeros keep their exponent
         sep = rnd.choice(".,") if rich else "."
         return rnd.choice(["", "", "-", "+"] if rich else ["", "-"]) + ip + (sep + fp if fp else "")
     if k in ("dt", "time"):
